@@ -42,6 +42,7 @@ def run(ctx):
     n = 40 if not thorough else 600
     for ver in VERS:
         shapes = [(rs, p) for rs in (1, 2, 16) for p in (2 * rs, 3 * rs, 5 * rs)] + [(4096, 8192), (16384, 32768)]     # exact multiples of the record size
+        shapes += [(4096, 1000), (1000, 1000), (100, 513), (513, 513), (512, 1023), (4096, 5000)]                      # final records longer than a reader's first buffer
         for i in range(n):
             if i < len(shapes):
                 rs, plen = shapes[i]
@@ -56,6 +57,22 @@ def run(ctx):
             meta.append(k)
     # the MI-encoding step of signing, compared with the model (payload stream, Digest / Content-Encoding headers)
     ctx.both(miops)
+    # one *Exchange object reused: serialised / hashed / written as A, then edited in place into B: every output must be B's
+    reuse = []
+    for ver in VERS:
+        for _ in range(8 if not thorough else 100):
+            a = rand_exchange(rng, ver, payload=rbytes(rng, rng.choice([0, 5, 40])))
+            b = list(a)
+            k = rng.randrange(5)
+            if k == 0: b[5] = hdrs([(b'Content-Type', [b'text/html']), (b'Cache-Control', [b'max-age=60'])])
+            elif k == 1: b[5] = a[5] + ';' + hexs(b'X-Late') + '=' + hexs(b'added-after-preview')
+            elif k == 2: b[4] = '404'
+            elif k == 3: b[7] = hexs(rbytes(rng, 33))
+            else: b = rand_exchange(rng, ver)
+            for what in ('write', 'hdr', 'hdrint'):
+                reuse.append(f'sxg.reuse {what} {exs(a)} {exs(b)}')
+            reuse.append(f'sxg.reuse mi {exs(a)} {exs(b)} 16')
+    ctx.both(reuse)
     # F14 regression: digest header already present with an empty value must be refused by MiEncodePayload
     for ver in VERS:
         dn = b'MI-Draft2' if ver == 'b1' else b'Digest'
@@ -73,6 +90,23 @@ def run(ctx):
     for r, k in zip(res, meta):
         e = parse_ex(r) if r else None
         if e: signed.append((e, k))
+    # the signing step against the model: the Signature header the library produced is the model's header for the signature
+    # bytes it contains, and those bytes verify (independent oracle) over the MODEL's signed message under the signer's certificate
+    import re as _re, base64 as _b64, hashlib as _hl
+    chk = []
+    for e, k in signed:
+        hdr = unhex(e[6])
+        mm = _re.search(rb'sig=\*([^*]*)\*', hdr)
+        if not mm: continue
+        sigb = _b64.b64decode(mm.group(1) + b'=' * (-len(mm.group(1)) % 4))
+        certsha = _hl.sha256(unhex(k['cert'])).hexdigest()
+        chk.append((e, k, sigb, certsha))
+    hres = ctx.model([f'sxg.sigheader {e[0]} {hexs(sigb)} {hexs(vurl)} {hexs(certurl)} {cs} {date} {expires}' for e, k, sigb, cs in chk])
+    mres = ctx.model([f'sxg.msg {exs(e)} {cs} {hexs(vurl)} {date} {expires}' for e, k, sigb, cs in chk])
+    ores = ctx.go([f'oracle.sig {k["cert"]} {m_.split(" ")[1]} {hexs(sigb)}' if m_ and m_.startswith('ok ') else 'oracle.status 0' for (e, k, sigb, cs), m_ in zip(chk, mres)])
+    for (e, k, sigb, cs), h_, o_ in zip(chk, hres, ores):
+        ctx.records.append((f'c02.sign-header {" ".join(e[:6])}', 'ok ' + e[6], h_))
+        ctx.records.append((f'c02.sign-signature-verifies-over-model-message {" ".join(e[:3])} {e[6][:40]}', o_, '1'))
     if len(signed) < len(unsigned) * 0.9:
         ctx.infra.append(f'sxg.sign failed for {len(unsigned) - len(signed)} of {len(unsigned)} exchanges: {res[:2]}')
     # 2. write (compared)
